@@ -44,11 +44,15 @@ Lenient   == {"bare-lf"}
 
 NoBody == [size |-> "none", first |-> "N", nul |-> FALSE, clcase |-> "canon"]
 Empty  == [phase |-> "method", method |-> "GET", segs |-> <<>>, trailing |-> FALSE, query |-> <<>>, hasq |-> FALSE,
-           headers |-> <<>>, body |-> NoBody, fault |-> "none"]
+           headers |-> <<>>, body |-> NoBody, fault |-> "none", delivery |-> "whole"]
+\* how the bytes reach the parser: in one read; cut in two reads at every position of the head (the harness reports the first
+\* cut whose outcome differs from the uncut one); as the read that follows an earlier, different request on the same connection
+\* object (whose query, headers and payload must not show through)
+Deliveries == {"whole", "split", "after"}
 
 \* --------------------------------------------------------------------------------------------- the machine
 CONSTANTS MaxSegs, MaxPairs, MaxHeaders,
-          FAMILY     \* which dimension is explored exhaustively: "headers" | "names" | "target" | "body" | "faults" | "all" (for -simulate)
+          FAMILY     \* which dimension is explored exhaustively: "headers" | "names" | "target" | "body" | "faults" | "delivery" | "all" (for -simulate)
 VARIABLE r
 \* header lines: every name in several cases, repeated names (same and different case), long and spaced values
 HLines == {<<"Host", "canon", "v1">>, <<"Host", "lower", "v2">>, <<"Accept", "mixed", "v1">>, <<"Accept", "upper", "v2">>,
@@ -60,7 +64,7 @@ Init == r = Empty
 Method(m)   == r.phase = "method" /\ (F({"target"}) \/ m \in {"GET", "POST"}) /\ (FAMILY = "body" => m \in {"POST", "PUT"}) /\ r' = [r EXCEPT !.method = m, !.phase = "target"]
 Seg(s)      == r.phase = "target" /\ Len(r.segs) < MaxSegs /\ (F({"target"}) \/ (s = "s1" /\ r.segs = <<>>)) /\ ~r.trailing /\ r' = [r EXCEPT !.segs = Append(@, s)]
 Trailing    == r.phase = "target" /\ F({"target"}) /\ r.segs # <<>> /\ ~r.trailing /\ r' = [r EXCEPT !.trailing = TRUE]
-QMark       == r.phase = "target" /\ F({"target", "faults"}) /\ r' = [r EXCEPT !.phase = "query", !.hasq = TRUE]
+QMark       == r.phase = "target" /\ F({"target", "faults", "delivery"}) /\ r' = [r EXCEPT !.phase = "query", !.hasq = TRUE]
 Pair(k, v)  == r.phase = "query" /\ Len(r.query) < MaxPairs /\ (F({"target"}) \/ (k = "k1" /\ v = "v1" /\ r.query = <<>>)) /\ r' = [r EXCEPT !.query = Append(@, <<k, v>>)]
 Version     == r.phase \in {"target", "query"} /\ r' = [r EXCEPT !.phase = "headers"]
 HeaderLine(n, c, v) == /\ r.phase = "headers" /\ Len(r.headers) < MaxHeaders
@@ -70,7 +74,7 @@ HeaderLine(n, c, v) == /\ r.phase = "headers" /\ Len(r.headers) < MaxHeaders
                        /\ r' = [r EXCEPT !.headers = Append(@, [n |-> n, c |-> c, v |-> v])]
 \* the Content-Length line and the payload it announces (only POST/PUT/PATCH/DELETE carry one here)
 Body(sz, f, z, c) == /\ r.phase = "headers" /\ r.method \in {"POST", "PUT", "PATCH", "DELETE"}
-                     /\ (F({"body"}) \/ (FAMILY = "faults" /\ sz \in {"small", "over"} /\ f = "N" /\ ~z /\ c = "canon"))
+                     /\ (F({"body"}) \/ (FAMILY \in {"faults", "delivery"} /\ sz \in {"small", "over"} /\ f = "N" /\ ~z /\ c = "canon"))
                      /\ r' = [r EXCEPT !.body = [size |-> sz, first |-> f, nul |-> z, clcase |-> c], !.phase = "done"]
 EndOfHead   == r.phase = "headers" /\ r' = [r EXCEPT !.phase = "done"]
 \* exactly one fault, applied by the concretiser at the place its name says; some need a body / a header to bite
@@ -80,6 +84,8 @@ Fault(f)    == /\ r.phase = "done" /\ r.fault = "none" /\ f # "none" /\ F({"faul
                           "nonutf8-in-header-value", "header-line-too-long"} => r.headers # <<>>)
                /\ r' = [r EXCEPT !.fault = f, !.phase = "end"]
 Finish      == r.phase = "done" /\ r' = [r EXCEPT !.phase = "end"]
+\* the delivery is chosen last (well-formed and malformed requests alike)
+Deliver(d)  == r.phase = "end" /\ r.delivery = "whole" /\ d # "whole" /\ F({"delivery"}) /\ r' = [r EXCEPT !.delivery = d]
 
 Next == \/ \E m \in Methods : Method(m)
         \/ \E s \in SegToks : Seg(s)
@@ -88,6 +94,7 @@ Next == \/ \E m \in Methods : Method(m)
         \/ \E n \in StdNames \cup CustNames \cup AllStd, c \in Cases, v \in HVals : HeaderLine(n, c, v)
         \/ \E sz \in BodySizes, f \in {"N", "Z"}, z \in BOOLEAN, c \in {"canon", "lower", "mixed"} : Body(sz, f, z, c)
         \/ \E f \in Faults : Fault(f)
+        \/ \E d \in Deliveries : Deliver(d)
 Spec == Init /\ [][Next]_r
 
 \* --------------------------------------------------------------------------------------------- layer (a)
@@ -99,7 +106,7 @@ Denotes(q) == [method |-> q.method, segs |-> q.segs, query |-> q.query,
                payload |-> q.body.size # "none"]
 
 \* o: observation of the harness
-\*  [kind |-> "accepted", method, segs, query, hdr |-> <<[n, typed, get, getlower]>>, payload |-> [present, same], starved, accpanic]
+\*  [kind |-> "accepted", method, segs, query, hdr |-> <<[n, typed, get, getlower]>>, payload |-> [present, same], stale |-> <<names>>, starved, accpanic]
 \*  [kind |-> "error", status] | [kind |-> "closed"] | [kind |-> "panic" | "hang" | "abort", where]
 HdrOK(d, h) == /\ h.n \in DOMAIN d.headers
                /\ h.typed = d.headers[h.n] /\ h.get = d.headers[h.n] /\ h.getlower = d.headers[h.n]
@@ -108,9 +115,11 @@ AcceptedOK(q, o) ==
   /\ o.accpanic = ""                                  \* no accessor panics
   /\ ~o.starved                                       \* did not wait for input that had already arrived
   /\ o.method = d.method /\ o.segs = d.segs /\ o.query = d.query
+  /\ (d.query = <<>> => o.qempty)                     \* no query: also the typed reading sees nothing
   /\ {o.hdr[i].n : i \in DOMAIN o.hdr} = DOMAIN d.headers
   /\ \A i \in DOMAIN o.hdr : HdrOK(d, o.hdr[i])
   /\ o.payload.present = d.payload /\ (d.payload => o.payload.same)
+  /\ o.stale = <<>>                                   \* no header the bytes do not carry (probe names of an earlier request)
 Refused(o) == (o.kind = "error" /\ o.status >= 400) \/ o.kind = "closed"
 
 ObsOK(q, o) ==
@@ -125,7 +134,8 @@ ObsClass(q, o) ==
   ELSE IF o.accpanic # "" THEN "accessor-panic"
   ELSE IF o.starved THEN "waited-for-input-that-had-arrived"
   ELSE LET d == Denotes(q) IN
-       IF o.method # d.method THEN "method" ELSE IF o.segs # d.segs THEN "path" ELSE IF o.query # d.query THEN "query"
+       IF o.method # d.method THEN "method" ELSE IF o.segs # d.segs THEN "path" ELSE IF o.query # d.query \/ (d.query = <<>> /\ ~o.qempty) THEN "query"
        ELSE IF o.payload.present # d.payload \/ (d.payload /\ ~o.payload.same) THEN "payload"
+       ELSE IF o.stale # <<>> THEN "header-of-an-earlier-request"
        ELSE "header-value"
 =============================================================================
